@@ -15,7 +15,7 @@ CONSTANTS
   RespFaults = FALSE
   PreResp = TRUE
   Probe = FALSE
-  AsBuiltT <- NoT
+  AsBuiltT <- NoArm
   GenDepth = 0
 INIT InitH
 NEXT NextH
